@@ -35,11 +35,32 @@ def gen_cases(rng, tier):
         lay = docgen.Layout(mode=rng.choice(['canonical', 'random']), crlf=False, comments=rng.choice([None, 'block-level']))
         node, text, toks = docs.random_doc(rng, size=rng.choice(['tiny', 'small', 'small', 'medium']), layout=lay,
                                            ifdata=rng.choice([None, 'unknown', 'empty']), strings=['plain', 'empty', 'escapes', 'dquote', 'utf8'])
+        if rng.random() < 0.4:
+            text = comment_runs(rng, text)
         st = loadlib.scan_tokens(text)
         if st is None or not in_class(st, text):
             continue
         cases.append({'text': text, 'strict': True, 'cycles': 1, 'kind': 'doc'})
     return cases
+
+
+def comment_runs(rng, text):
+    """runs of comments of both kinds in front of block-level elements, the last one optionally on the line of the element
+    (`// a` / `/* b */ /begin X ..`): the placement the statement allows and a line-oriented generator rarely produces"""
+    import re
+    lines = text.split('\n')
+    out = []
+    for ln in lines:
+        m = re.match(r'^(\s+)(/begin [A-Z_0-9]+|[A-Z][A-Z_0-9]+)\b', ln)
+        if m and len(m.group(1)) >= 4 and rng.random() < 0.15 and '"' not in ln.split(m.group(2))[0]:
+            ind = m.group(1)
+            for _ in range(rng.choice([1, 1, 2, 3])):
+                out.append(ind + (('// ' + rng.choice(['note', 'a b', 'x /* y', ''])) if rng.random() < 0.5
+                                  else ('/* ' + rng.choice(['c', 'two words', '// inner', '*']) + ' */')))
+            if rng.random() < 0.6:
+                ln = ind + '/* ' + rng.choice(['k', 'same line', '//']) + ' */ ' + ln[len(ind):]
+        out.append(ln)
+    return '\n'.join(out)
 
 
 def oracle(c, r, cases, res):
